@@ -119,6 +119,7 @@ type Clause struct {
 }
 
 type LoopSpec struct {
+	Hints      []*Clause // facts proved at the end of the body (back edge) and then assumed for the invariant proofs
 	Invariants []*Clause
 	Decreases  Expr
 }
@@ -193,7 +194,7 @@ func (db *SpecDB) LookupSpec(pkg, name string) *SpecFunc {
 		// qualified by short package name
 		q, n := name[:i], name[i+1:]
 		for _, s := range db.byName[n] {
-			if shortPkgName(s.Pkg) == q {
+			if shortPkgName(s.Pkg) == q || strings.ReplaceAll(shortPkgName(s.Pkg), "-", "_") == q {
 				return s
 			}
 		}
@@ -297,6 +298,7 @@ func lexSpec(s string) ([]stoken, error) {
 type parser struct {
 	toks []stoken
 	pos  int
+	noIn int
 }
 
 func (p *parser) peek() stoken { return p.toks[p.pos] }
@@ -357,7 +359,9 @@ func (p *parser) parseExpr() Expr {
 		p.next()
 		name := p.expectIdent()
 		p.expectOp("=")
+		p.noIn++
 		val := p.parseExpr()
+		p.noIn--
 		if !p.isIdent("in") {
 			panic(fmt.Errorf("expected 'in' after let binding"))
 		}
@@ -510,7 +514,7 @@ func (p *parser) parseCmp() Expr {
 			return r
 		}
 	}
-	if t.kind == "ident" && t.text == "in" {
+	if t.kind == "ident" && t.text == "in" && p.noIn == 0 {
 		p.next()
 		y := p.parseAdd()
 		return &EBinary{Op: "in", X: x, Y: y}
@@ -644,7 +648,10 @@ func (p *parser) parsePrimary() Expr {
 		return &EIdent{Name: t.text}
 	case "op":
 		if t.text == "(" {
+			saved := p.noIn
+			p.noIn = 0
 			x := p.parseExpr()
+			p.noIn = saved
 			p.expectOp(")")
 			return x
 		}
@@ -934,6 +941,12 @@ func parseClauseInto(fs *FuncSpec, l rawLine) error {
 				return err
 			}
 			ls.Invariants = append(ls.Invariants, c)
+		case "hint":
+			c, err := mk("hint", rest)
+			if err != nil {
+				return err
+			}
+			ls.Hints = append(ls.Hints, c)
 		case "decreases":
 			e, err := parseExprString(rest)
 			if err != nil {
